@@ -1,6 +1,9 @@
 """C07 Arithmetic and logic circuit builders are exact for every width."""
 import hashlib
+import json
+import os
 import re
+import sys
 
 import vlib
 
@@ -50,6 +53,14 @@ THEOREMS = [
     "Mpc.C07_imod_signpad",
     "Mpc.C07_goldschmidt_correction",
     "Mpc.C07_goldschmidt_correction_old_wrong",
+    # histories of builder calls on ONE circuits.Compiler
+    "Mpc.C07_history_compose",
+    "Mpc.C07_history",
+    "Mpc.C07_history_harness",
+    "Mpc.C07_history_udiv_udiv",
+    "Mpc.C07_history_add_then_udiv",
+    "Mpc.C07_history_divider_pair",
+    "Mpc.C07_history_goldschmidt_pair",
 ]
 
 # builder called per SSA opcode in compiler/ssa/circuitgen.go (T2)
@@ -133,6 +144,14 @@ def goldschmidt_estimate_hypothesis(ctx):
     ops = ["c07 corrstep old 7 127 13 10", "c07 corrstep new 7 127 13 10"]
     ops += ["c07 estexh %d" % n for n in exh]
     ops += ["c07 estrnd %d %d %d" % (n, cnt if n < 48 else cnt // 4, ctx.seed) for n in big]
+    # the same hypothesis from NON-FRESH states (hypothesis hest2 of Mpc.C07_history_divider_pair /
+    # C07_history_goldschmidt_pair): the estimate of a second divider built after a complete first divider on the
+    # same state; all operand pairs of the second divider at widths <= 6, structured above, for several operand pairs
+    # of the first
+    hist_pairs = [(4, 4), (5, 5), (6, 6), (4, 6), (6, 4), (9, 5), (8, 8), (9, 9), (8, 9), (9, 8), (9, 12), (16, 9)]
+    if ctx.tier == "thorough":
+        hist_pairs += [(n, n) for n in (1, 2, 3, 7, 10, 12, 16, 17)] + [(16, 17), (17, 16), (32, 9), (9, 32), (33, 17)]
+    ops += ["c07 esthist %d %d %d %d" % (a, b, 6 if ctx.tier == "quick" else 16, ctx.seed) for a, b in hist_pairs]
     p = ctx.work + "/gold.ops"
     open(p, "w").write("\n".join(ops) + "\n")
     outp, rc = ctx.run_drv(p)
@@ -159,9 +178,86 @@ def goldschmidt_estimate_hypothesis(ctx):
     ctx.evaluations += pairs
     ctx.coverage["goldschmidt_estimate"] = {"hypothesis": "goldschmidt-estimate-within-one", "operand_pairs": pairs,
                                             "exhaustive_widths": [exh[0], exh[-1]], "structured_widths": big,
+                                            "second_divider_of_a_history_widths(first,second)": hist_pairs,
                                             "estimate_minus_floor_range": [lo, hi], "violations": viol, "driver_rc": rc}
     ctx.oblige("validated hypothesis goldschmidt-estimate-within-one evaluated on every requested width",
                rc == 0 and len(widths) == len(ops) - 2 and pairs > 100000, "\n".join(lines)[-2000:])
+
+
+def goldschmidt_pair_fact(ctx):
+    """Executed counterpart of the non-vacuity example of Mpc.C07_history_goldschmidt_pair at a width where the seed ROM
+    is in use: two Goldschmidt dividers generated on ONE builder state, 13 / 3 = 4 and then 14 / 5 = 2."""
+    p = ctx.work + "/goldpair.ops"
+    open(p, "w").write("c07 hgr 1 1 4,4,4,4 udiv,4,0,b0.0.4,b1.0.4,-|udiv,4,0,b2.0.4,b3.0.4,- 1011110001111010\n")
+    outp, rc = ctx.run_drv(p)
+    got = open(outp).read().strip().split(" | ")[-1]
+    ctx.fact("goldschmidt_pair_on_one_state: two Goldschmidt dividers on one builder state, 4-bit operands (seed ROM in use): "
+             "13 / 3 = 4, then 14 / 5 = 2 (compiled Lean generators)", got, "00100100")
+
+
+def replay_exact(ctx):
+    """`bin/check C07 --replay F`: F holds one case (a history of builder calls on one Compiler with its input values,
+    an MPCL program with its inputs, or a single builder call with its operands); run exactly that case on the real
+    code before the seeded run that regenerates it."""
+    if "--replay" not in sys.argv:
+        return
+    try:
+        rp = sys.argv[sys.argv.index("--replay") + 1]
+        rp = rp if os.path.isabs(rp) else os.path.join(vlib.VERIF, rp)
+        f = json.load(open(rp)).get("failure") or {}
+    except Exception:
+        return
+    if not (f.get("kind") in ("history", "program") or f.get("replay")):
+        return
+    rc, log = vlib.sh([ctx.hx, "replay", rp], env=vlib.GOENV, timeout=600)
+    print("replayed case of %s (%s):\n%s" % (os.path.basename(rp), f.get("sig"), vlib.indent(log[-2500:])))
+    if rc == 1:
+        g = dict(f)
+        g["found_by"] = "exact replay of " + os.path.basename(rp)
+        ctx.fails.append(g)
+
+
+def histories(ctx):
+    """Builder HISTORIES on one circuits.Compiler (the property is about the builders as the compiler uses them: one
+    Compiler per program, many builder calls on it) and their compiled-program form."""
+    ops, out, meta = ctx.run_hx("hist", 0, seed=ctx.seed)
+    ctx.absorb_meta(meta, prefix="hist_")
+    ctx.correspond("histories of 2..5 builder calls on ONE Compiler: gate lists (T4) and evaluations (T3)", ops, out)
+    for line in open(ops, errors="replace"):
+        f = line.split(" ", 6)
+        if len(f) > 5 and f[1] == "hgr":
+            ctx.distinct.add("hist " + " ".join(f[2:6]))
+    c = meta.get("counters", {})
+    ctx.evaluations += c.get("evaluations", 0)
+    pairs = sorted(k[len("hist_pair_"):] for k in c if k.startswith("hist_pair_"))
+    ctx.coverage["histories"] = {
+        "histories": c.get("histories", 0), "by_class": {k[len("hist_class_"):]: v for k, v in c.items() if k.startswith("hist_class_")},
+        "by_length": {k[len("hist_len_"):]: v for k, v in c.items() if k.startswith("hist_len_")},
+        "Yao": c.get("hist_Yao", 0), "GMW": c.get("hist_GMW", 0),
+        "calls_fed_by_earlier_results": c.get("hist_calls_fed_by_earlier_results", 0),
+        "distinct_consecutive_builder_pairs_x_target": len(pairs),
+        "fully_exhaustive": c.get("hist_exhaustive", 0), "t4_lines": c.get("hist_t4_lines", 0),
+        "t4_gates": c.get("hist_t4_gates", 0), "call_evaluations": c.get("evaluations", 0)}
+    ctx.oblige("history harness ran (histories > 1000, each class present, both targets, divider-after-divider on GMW, "
+               "T4 lines > 1000)",
+               c.get("histories", 0) > 1000 and all(c.get("hist_class_" + k, 0) > 0 for k in ("pair", "same", "chain", "rand", "wide"))
+               and c.get("hist_Yao", 0) > 100 and c.get("hist_GMW", 0) > 100 and c.get("hist_pair_udiv>udiv_GMW", 0) > 5
+               and c.get("hist_t4_lines", 0) > 1000 and c.get("hist_calls_fed_by_earlier_results", 0) > 300, str(c)[:600])
+    # compiled programs: several operations in ONE MPCL function
+    ops, out, meta = ctx.run_hx("prog", 0, seed=ctx.seed)
+    ctx.absorb_meta(meta, prefix="prog_")
+    ctx.correspond("MPCL programs with several operations in one function: compiled circuit through the Lean evaluator (T3)",
+                   ops, out)
+    c = meta.get("counters", {})
+    ctx.evaluations += c.get("evaluations", 0)
+    ctx.coverage["programs"] = {
+        "programs": c.get("programs", 0), "by_class": {k[len("prog_class_"):]: v for k, v in c.items() if k.startswith("prog_class_")},
+        "Yao": c.get("prog_target_0", 0), "GMW": c.get("prog_target_1", 0),
+        "statements_fed_by_earlier_results": c.get("prog_statements_fed_by_earlier_results", 0),
+        "statement_evaluations": c.get("evaluations", 0), "evalc_lines": c.get("prog_evalc_lines", 0)}
+    ctx.oblige("program harness ran (programs > 500, both targets, two divisions in one function)",
+               c.get("programs", 0) > 500 and c.get("prog_target_0", 0) > 100 and c.get("prog_target_1", 0) > 100
+               and c.get("prog_pair_/_then_/", 0) > 5, str(c)[:600])
 
 
 def run(ctx):
@@ -172,7 +268,10 @@ def run(ctx):
     dispatch_facts(ctx)
     threshold_fact(ctx)
     goldschmidt_estimate_hypothesis(ctx)
+    goldschmidt_pair_fact(ctx)
     if ctx.build_hx():
+        replay_exact(ctx)
+        histories(ctx)
         # T4/T3 correspondence: canonical cc.Gates of the real builder vs the
         # Lean generator; sample evaluations; compiled circuits through the
         # Lean evaluator.
@@ -200,14 +299,37 @@ def run(ctx):
                 ctx.absorb_meta(meta, prefix="widen_")
                 if [f for f in ctx.fails if not ctx.is_known(f)]:
                     break
+                # more random histories / programs
+                ops, out, meta = ctx.run_hx("hist", 1500, seed=s, tag="-widen", extra_args=["-extra", "only=rand"])
+                ctx.absorb_meta(meta, prefix="widen_hist_")
+                if [f for f in ctx.fails if not ctx.is_known(f)]:
+                    break
     ctx.coverage["rule"] = (
-        "oracle: every builder x {Yao,GMW} x operand widths 1..E (E=5 quick + equal widths 6..8, E=8 thorough) x result "
+        "HISTORIES (the property is about the builders as the compiler uses them: one circuits.Compiler per program, many "
+        "builder calls on it): sequences of 2..5 builder calls on ONE Compiler x {Yao,GMW}: every ordered pair of builder "
+        "kinds on independent operands; the same kind 2..5 times at equal and different widths around the ROM / iteration "
+        "boundaries of the GMW divider (4..9, 16, 17; thorough to 33 and 64), Karatsuba thresholds, 2^k, 2^k+-1; chains in "
+        "which results of earlier calls feed later ones (op2(op1(a,b),c), op2(c,op1(a,b)), compare-and-select, the division "
+        "identity q*b+r==a in 5 calls, double-width product divided again, shared operands); random histories (operands "
+        "from new inputs, re-used inputs and slices of earlier results); wide chains at 9..33 bits. EVERY call of every "
+        "history is judged against math/big on the operand values it actually received (trailing input buses exhaustive up "
+        "to 10 bits quick / 12 bits thorough, times 6 structured value combinations of the other buses); T4 compares the real cc.Gates of the "
+        "whole history with the Lean generators run in the same sequence from the same state (do r1 <- b1; r2 <- b2 ...). "
+        "Compiled-program form: MPCL functions with 2..5 statements (/ % * + - & | ^ and the six comparisons, uintN and intN, "
+        "statements fed by earlier results) compiled for both targets, every statement judged, compiled circuit through the "
+        "Lean evaluator. Signed kinds take equal operand widths in histories (the open zero-extension findings are judged "
+        "by the single-call oracle). "
+        "SINGLE CALLS: oracle: every builder x {Yao,GMW} x operand widths 1..E (E=5 quick + equal widths 6..8, E=8 thorough) x result "
         "widths {1,max-1,max,max+1,2max,2max+1,2max+3} with ALL operand values, plus boundary-biased samples at widths up "
         "to 130 (Karatsuba thresholds, 2^k, 2^k+-1); with and without the ZeroWire/OneWire prologue; with and without "
         "ConstPropagate/ShortCircuitXORZero/Prune; every compiled circuit is also evaluated by Circuit.Compute on "
         "sampled inputs and its raw cc.Gates in list order. distinct = distinct (builder,target,prologue,widths,par) "
-        "instantiations whose full canonical gate list was compared with the Lean generator")
+        "instantiations whose full canonical gate list was compared with the Lean generator, plus distinct histories whose "
+        "whole gate list was compared")
     ctx.assumptions += [
+        "the state of circuits.Compiler that builders can observe is the gate list and the invI0/zero/one wire caches (Lean "
+        "`St`); NOT assumed silently: it is what the history tie (T4 on sequences of calls on one Compiler) and the history "
+        "oracle test on every run for the generated histories",
         "wires are numbered by first occurrence in cc.Gates; wire pointer identity = number identity",
         "Compile (wire id assignment, BFS order, GMW level sort) is validated by evaluation only, not modelled",
         "the theorems are about the gate list in emission order under sequential evaluation",
@@ -225,9 +347,20 @@ def run(ctx):
         "widths): ALL operand pairs of widths 1..9 (quick) / 1..11 (thorough), structured operand pairs (random bit lengths, "
         "2^k, 2^k+-1, all-ones, small divisors, m*b+{0,b-1,-1}, b in {a-1,a,a+1}) at widths up to 64. "
         "Mpc.C07_goldschmidt_correction proves the correction step exact for every width under exactly this hypothesis; the "
-        "whole divider is additionally evaluated against math/big by the oracle",
+        "whole divider is additionally evaluated against math/big by the oracle. The same hypothesis FROM NON-FRESH STATES "
+        "(hest2 of Mpc.C07_history_divider_pair / C07_history_goldschmidt_pair: the estimate of a divider built after an "
+        "earlier divider on the same state) is evaluated by the driver op esthist: all operand pairs of the second divider at "
+        "widths <= 6, structured pairs above, for several operand pairs of the first; it also assumes that goldEstimate "
+        "extends the state well-formedly (loop-based generator, not proved; its gate list is tied by T4)",
     ]
     return ctx.finish(
+        "HISTORIES of builder calls on one Compiler: Mpc.C07_history_compose (sequential composition keeps both "
+        "postconditions: frame property), Mpc.C07_history (fold over a history of any length: every call sound from any "
+        "state => every call's postcondition holds in the final state, operands = inputs or earlier results), "
+        "Mpc.C07_history_harness (the same on the harness circuit), instances divider-after-divider (long divider, "
+        "unconditional), adder-then-divider with the divisor fed by the sum, Goldschmidt-after-Goldschmidt (conditional on "
+        "the estimate hypothesis at both states); tie T4 and oracle on generated histories and on compiled MPCL programs with "
+        "several operations in one function. "
         "Theorems (Props/C07.lean, all operand/result widths, all values, both prologue variants): ripple adder and "
         "subtractor; Kogge-Stone adder and subtractor (prefix-network interval invariant; too few stages shown wrong); "
         "unsigned comparators; signed comparators AS IN THE CODE (cc.ZeroPad: exact for equal widths, zero-extension "
